@@ -467,6 +467,13 @@ def run(ctx):
                            % (q_, tokname, unparse(rw), tokname),
                            construct='%s: %s' % (q_, short(c_, 70)))
 
+    # ---- R01o (C16 R16g): the legacy argument parser advances only to reported positions
+    ctx.rule('R01o', 'the pylatexenc-2 argument parser advances its running position only to positions reported by the '
+                     'sub-parse (never by arithmetic on the query position): argument nodes do not overlap (C16 R16g)', 4)
+    from . import c16 as _c16
+    from .. import core as _core
+    _core.run_proxied(ctx, _c16, 'R01o', ('R16g',))
+
     return 'other', (
         'Span algebra at every construction site: for each chars node pos_end - pos - len(chars) '
         'normalises to 0 (affine normaliser with single-assignment inlining and the token-span '
@@ -852,5 +859,56 @@ def _r01a_site(ctx, mod, f, c, chars, pos, pe, ln, cons):
     elif _known_opaque(f, chars):
         ctx.holds('R01a', mod, c, _known_opaque(f, chars), construct=cons)
     else:
+        fixed = _fixed_width_token_span(ctx, mod, f, c, chars, pos, d)
+        if fixed is not None:
+            ok_, why_ = fixed
+            ctx.decide('R01a', ok_, mod, c, why_, why_, construct=cons)
+            return
         ctx.unknown('R01a', mod, c, 'span - len(chars) = %s not decided' % affine.show(d),
                     construct=cons)
+
+
+def _fixed_width_token_span(ctx, mod, f, c, chars, pos, d):
+    """chars=<tok>.arg, pos=<tok>.pos and a span of the constant k: right exactly when every token
+    of the kinds that reach the site is k characters wide.  Decided from the widths of the token
+    construction sites of those kinds in the token reader."""
+    if not (isinstance(chars, ast.Attribute) and chars.attr == 'arg' and isinstance(pos, ast.Attribute)
+            and pos.attr == 'pos' and unparse(chars.value) == unparse(pos.value)):
+        return None
+    tname = unparse(chars.value)
+    if set(d[1]) != {'len(%s.arg)' % tname} or d[1]['len(%s.arg)' % tname] != -1 or d[0] < 1:
+        return None
+    k = d[0]
+    kinds = set()
+    for t, pol in atomic_facts(c):
+        if pol and isinstance(t, ast.Compare) and len(t.ops) == 1 and unparse(t.left) == tname + '.tok':
+            if isinstance(t.ops[0], ast.Eq) and isinstance(t.comparators[0], ast.Constant):
+                kinds.add(t.comparators[0].value)
+            elif isinstance(t.ops[0], ast.In) and isinstance(t.comparators[0], (ast.Tuple, ast.List)):
+                kinds |= {e.value for e in t.comparators[0].elts if isinstance(e, ast.Constant)}
+    if not kinds:
+        return None
+    trm = ctx.repo.mod('pylatexenc.latexnodes._tokenreader')
+    other = []
+    n_sites = 0
+    for q, g in trm.functions.items():
+        env = affine.single_assign_env(g)
+        for mk in [x for x in iter_own(g) if isinstance(x, ast.Call) and call_name(x) in ('make_token', 'LatexToken')]:
+            tk = kwarg(mk, 'tok')
+            if not (isinstance(tk, ast.Constant) and tk.value in kinds):
+                continue
+            n_sites += 1
+            p_, pe_ = kwarg(mk, 'pos'), kwarg(mk, 'pos_end')
+            try:
+                w_ = affine.diff(pe_, p_, env) if p_ is not None and pe_ is not None else None
+            except affine.NotAffine:
+                w_ = None
+            if w_ != (k, {}):
+                other.append('%s line %d: width %s' % (q, mk.lineno, affine.show(w_) if w_ is not None else '?'))
+    if not n_sites:
+        return None
+    if other:
+        return False, ('the node is given the span %d but carries the whole text of a %s token: such tokens are not all '
+                       '%d character(s) wide (%s) -- for those (a paragraph break read as one token) the node\'s text '
+                       'is longer than the source slice at its position' % (k, '/'.join(sorted(kinds)), k, '; '.join(other[:2])))
+    return True, 'every %s token is %d character(s) wide (%d construction sites)' % ('/'.join(sorted(kinds)), k, n_sites)
